@@ -27,6 +27,17 @@ type Result struct {
 // select on ctx in every fake peer.
 func Run(t *testing.T, limit time.Duration, body func(ctx context.Context)) Result {
 	var res Result
+	// synctest.Test calls FailNow on the test it is given as soon as the race detector reports something
+	// inside the bubble; run it in a sub-test so that only that sub-test's goroutine is ended and the caller
+	// (the harness, which attributes race reports to the running case) carries on.
+	t.Run("bubble", func(t *testing.T) {
+		res = runBubble(t, limit, body)
+	})
+	return res
+}
+
+func runBubble(t *testing.T, limit time.Duration, body func(ctx context.Context)) Result {
+	var res Result
 	synctest.Test(t, func(t *testing.T) {
 		ctx, cancel := context.WithCancel(context.Background())
 		defer cancel()
